@@ -145,7 +145,7 @@ def to_case(s):
 
 # ------------------------------------------------------------------ implementation side
 _state = {}
-_lock = threading.Lock()
+_seen = {}     # scenario -> every observation made of it in this run (to report timing-dependent ones)
 
 
 def _setup(L):
@@ -235,7 +235,10 @@ def run_impl(L, scenarios):
         _state["n"] += 1
         jobs.append((s, _state["n"]))
     with concurrent.futures.ThreadPoolExecutor(max_workers=8) as ex:
-        return list(ex.map(_one, jobs))
+        obs = list(ex.map(_one, jobs))
+    for s, o in zip(scenarios, obs):
+        _seen.setdefault(json.dumps(s, sort_keys=True), []).append(o)
+    return obs
 
 
 # ------------------------------------------------------------------ oracle
@@ -317,6 +320,9 @@ def run(res, tier):
                     to_case=to_case, oracle=oracle, corr_name="RetryModel (FwdState attempt machine, drive) vs the running squid",
                     n_quick=150, n_thorough=3000, seed_salt=7, kind_fn=kind_fn, nontrivial_fn=nontrivial_fn)
     finally:
+        unstable = {k: v for k, v in _seen.items() if len(set(v)) > 1}
+        res.extra["timing_dependent_scenarios"] = [{"scenario": json.loads(k), "observations": v} for k, v in list(unstable.items())[:20]]
+        _seen.clear()
         for k in ("dns", "org"):
             if k in _state:
                 try:
